@@ -97,7 +97,11 @@ def scenario(hist, entry, rng, variant=0, which=None):
     # where an integer random_state is documented as sufficient the global seed must not matter: use another one
     lifecycle.do_fit(hist, c, copy.deepcopy(XB), copy.deepcopy(yB), entry, seedB if entry.seed != "rs" else seedB + 17, "B")
     for obj, note in ((a, "refitted instance"), (c, "fresh clone")):
-        lifecycle.observe_all(hist, obj, entry, XB, "RefitEqFresh", note=note)
+        answered = lifecycle.observe_all(hist, obj, entry, XB, "RefitEqFresh", note=note)
+        # whether the model answers at all is part of what is compared: a refitted instance that raises where a fresh
+        # clone answers is not "the same model"
+        hist.ev(a="obs", h=hist.handle(obj), method="answers", clause="RefitEqFresh", note=note,
+                rows=[[0, hist.ids.of(numpy.array([1.0 if answered else 0.0]))]])
         lifecycle.observe_attrs(hist, obj, "RefitEqFresh", note=note)
     # the training set is its values, not how the caller holds them: a second clone trained on the same B kept in
     # Fortran order / as a strided view is the same model
@@ -162,6 +166,11 @@ def scenario_attrs_only(hist, entry, rng, variant=0, which=None):
     XB, yB = entry.data(rng)
     s = rng.randint(0, 999)
     lifecycle.do_fit(hist, a, XA, yA, entry, s, "A")
+    if hasattr(a, "get_fct_inv"):
+        try:
+            a.get_fct_inv()          # used once after the first fit (every predict of the target wrappers does)
+        except Exception:
+            pass
     reconfigure(hist, a, entry, rng, which)
     okB, _ = lifecycle.do_fit(hist, a, XB, yB, entry, s, "B")
     c = hist.clone(a, {k for k in vars(entry.make(0)) if k.endswith("_")})
@@ -171,6 +180,12 @@ def scenario_attrs_only(hist, entry, rng, variant=0, which=None):
     for obj, note in ((a, "refitted instance"), (c, "fresh clone")):
         h = hist.handle(obj)
         state = {k: v for k, v in vars(obj).items() if k.endswith("_") and not k.startswith("_")}
+        if hasattr(obj, "get_fct_inv"):
+            # objects derived from the fitted state on demand (the reverse transformer) follow the LAST fit
+            try:
+                state["<get_fct_inv>"] = sorted(vars(obj.get_fct_inv()).get("permutation_", {}).items())
+            except Exception as e:
+                state["<get_fct_inv>"] = "raised " + type(e).__name__
         hist.ev(a="obs", h=h, method="attr:all", clause="RefitEqFresh", note=note,
                 rows=[[0, hist.ids.of(numpy.array([repr(sorted(state.items(), key=lambda kv: kv[0]))], dtype=object))]])
 
